@@ -293,6 +293,8 @@ def potable_case(model_name, nr):
 
 def cases(tier, seed=0):
   cs = []
+  from checks import fpgrid
+  cs.append(Case("fp grid DL_POLY", fpgrid.grid_case, target="DL_POLY", nr=44))
   if tier == "quick":
     nrs, maxp, models, mnr = [8, 12], 2, ["buck_morse", "multirange", "sum_modifier"], [8]
   else:
